@@ -90,7 +90,8 @@ def main():
                 d = vlib.first_diff(mt, it)
                 if d:
                     diverge.append((sid, lines, d))
-                for o in mod.oracle(lines, it):
+                ofn = (lambda: mod.oracle_with_model(lines, it, mt)) if hasattr(mod, "oracle_with_model") else (lambda: mod.oracle(lines, it))
+                for o in ofn():
                     oracle_fail.append((sid, lines, o[0], o[1]))
                 k = mod.nontrivial(lines, it)
                 if isinstance(k, (set, list, frozenset)):
@@ -123,6 +124,8 @@ def main():
             except Exception:
                 return False
             try:
+                if hasattr(mod, "oracle_with_model"):
+                    return any(o[0] == sig for o in mod.oracle_with_model(cand, ii.get("s", []), mm.get("s", [])))
                 return any(o[0] == sig for o in mod.oracle(cand, ii.get("s", [])))
             except Exception:
                 return False
